@@ -16,4 +16,4 @@ for P in "$@"; do
   (cd $V && VERIF_REPO=$R VERIF_SEED=${VERIF_SEED:-1} VERIF_WORKERS=${VERIF_WORKERS:-8} python3 check.py $P --tier ${TIER:-quick} 2>&1 | tail -${TAIL:-6})
   echo "exit=$?"
 done
-git -C /repo worktree remove --force $R; git -C /verif worktree remove --force $V
+[ -n "${KEEP:-}" ] || { git -C /repo worktree remove --force $R; git -C /verif worktree remove --force $V; }
